@@ -483,11 +483,18 @@ def verify_link_signature_thresholds(layout, steps_metadata):
                 # The signing key is authorized ...
                 if authorized_key and link_keyid == authorized_keyid:
                     verification_key = authorized_key
+                    main_keyid = authorized_key["keyid"]
                     break
 
                 # ... or the signing key is an authorized subkey ...
+                # Authorizing a subkey authorizes neither its main key nor its
+                # sibling subkeys: verify with the subkey only, but count the
+                # link for the main key.
                 if main_key_for_subkey and link_keyid == authorized_keyid:
-                    verification_key = main_key_for_subkey
+                    verification_key = main_key_for_subkey["subkeys"][
+                        authorized_keyid
+                    ]
+                    main_keyid = main_key_for_subkey["keyid"]
                     break
 
                 # ... or the signing key is a subkey of an authorized key
@@ -496,6 +503,7 @@ def verify_link_signature_thresholds(layout, steps_metadata):
                     and link_keyid in authorized_key.get("subkeys", {}).keys()
                 ):
                     verification_key = authorized_key
+                    main_keyid = authorized_key["keyid"]
                     break
 
             else:
@@ -538,16 +546,16 @@ def verify_link_signature_thresholds(layout, steps_metadata):
                 continue
 
             # Warn if there are links signed by different subkeys of same main key
-            if verification_key["keyid"] in used_main_keyids:
+            if main_keyid in used_main_keyids:
                 LOG.warning(
                     "Found links signed by different subkeys of the same main"
                     " key '%s' for step '%s'. Only one of them is counted towards the"
                     " step threshold.",
-                    verification_key["keyid"],
+                    main_keyid,
                     step.name,
                 )
 
-            used_main_keyids.append(verification_key["keyid"])
+            used_main_keyids.append(main_keyid)
 
             # Keep only links with valid and authorized signature
             verified_key_link_dict[link_keyid] = link
